@@ -437,8 +437,77 @@ pub fn eval_events(t: &Tables, dir: &str, nshards: usize, seed: u64, randoms: u6
         n += 1;
         counts[2] += 1;
     }
+    // boards REACHED by the engine's own machinery (generator successors incl. promotions, captures, castling, en passant;
+    // the text applier) against a fresh object of the same placement and side to move: whatever the object carries along
+    // (caches, flags, history) must not matter
+    let mut reached = 0u64;
+    let starts: Vec<BoardState> = {
+        let mut v = vec![BoardState::from_fen("rnbqkbnr/pppppppp/8/8/8/8/PPPPPPPP/RNBQKBNR w KQkq - 0 1").unwrap()];
+        let mut fi = 0;
+        while (v.len() as u64) < 1 + randoms / 40 && fi < 100000 {
+            fi += 1;
+            if let Some(b) = crate::rules::family_member(t, &mut rng, fi) {
+                v.push(b);
+            }
+        }
+        v
+    };
+    for b0 in &starts {
+        let mut b = b0.clone();
+        let start_fen = to_fen(b0, 0, 1);
+        let mut route: Vec<Value> = Vec::new();
+        for _ply in 0..rng.gen_range(2..=8) {
+            let r = catch_unwind(AssertUnwindSafe(|| generate_moves(&b, MoveGenerationMode::AllMoves, &t.hasher)));
+            let ms = match r {
+                Ok(ms) if !ms.is_empty() => ms,
+                _ => break,
+            };
+            // promotions and captures first (they are what changes the material a cache would summarise)
+            let special: Vec<usize> = (0..ms.len()).filter(|&i| ms[i].pawn_promotion.is_some() || piece_count(&ms[i]) < piece_count(&b)).collect();
+            let pick = if !special.is_empty() && rng.gen_bool(0.7) { special[rng.gen_range(0..special.len())] } else { rng.gen_range(0..ms.len()) };
+            // every other step through the text applier instead of the generator's successor object
+            let txt = printed_move(&ms[pick]);
+            let by_text = rng.gen_bool(0.4);
+            b = step_route(t, &b, &txt, by_text).unwrap_or_else(|| ms[pick].clone());
+            route.push(json!([txt, by_text]));
+            let st = t.state(&b);
+            let mut ev = eval_event(t, &pcs_of(&st), st["stm"].as_u64().unwrap_or(0) as u32, "reached", &mut rng);
+            if let Ok(e_reached) = catch_unwind(AssertUnwindSafe(|| get_evaluation(&b))) {
+                ev["e_var"].as_array_mut().unwrap().push(json!(e_reached));
+            }
+            ev["route"] = json!({"fen": start_fen, "steps": route});
+            out.emit(n % nshards, &ev);
+            n += 1;
+            reached += 1;
+        }
+    }
     out.finish();
-    json!({"events": n, "basis": counts[0], "max": counts[1], "random": counts[2]})
+    json!({"events": n, "basis": counts[0], "max": counts[1], "random": counts[2], "reached": reached})
+}
+
+// one step of a route: by the text applier, or by the generator's successor object that prints as `txt`
+fn step_route(t: &Tables, b: &BoardState, txt: &str, by_text: bool) -> Option<BoardState> {
+    if by_text {
+        let mut c = b.clone();
+        catch_unwind(AssertUnwindSafe(|| {
+            crate::uci::verif_make_move(&mut c, txt, &t.hasher);
+            c
+        })).ok()
+    } else {
+        catch_unwind(AssertUnwindSafe(|| generate_moves(b, MoveGenerationMode::AllMoves, &t.hasher))).ok()?.into_iter().find(|m| printed_move(m) == txt)
+    }
+}
+
+fn piece_count(b: &BoardState) -> usize {
+    let mut c = 0;
+    for row in BOARD_START..BOARD_END {
+        for col in BOARD_START..BOARD_END {
+            if let Square::Full(_) = b.board[row][col] {
+                c += 1;
+            }
+        }
+    }
+    c
 }
 
 // ---------------------------------------------------------------------------------------------
@@ -473,7 +542,21 @@ pub fn replay_events(t: &Tables, input: &str, output: &str) -> Value {
             }
             "eval" => {
                 let pcs = pcs_of(&ev["p"]);
-                eval_event(t, &pcs, ev["p"]["stm"].as_u64().unwrap() as u32, "replay", &mut rng)
+                let mut new = eval_event(t, &pcs, ev["p"]["stm"].as_u64().unwrap() as u32, "replay", &mut rng);
+                // a board that was reached along a route is reached again the same way
+                if let Some(steps) = ev["route"]["steps"].as_array() {
+                    let mut b = BoardState::from_fen(ev["route"]["fen"].as_str().unwrap_or("")).ok();
+                    for st in steps {
+                        b = b.and_then(|x| step_route(t, &x, st[0].as_str().unwrap_or(""), st[1].as_bool().unwrap_or(false)));
+                    }
+                    if let Some(b) = b {
+                        if let Ok(e_reached) = catch_unwind(AssertUnwindSafe(|| get_evaluation(&b))) {
+                            new["e_var"].as_array_mut().unwrap().push(json!(e_reached));
+                        }
+                    }
+                    new["route"] = ev["route"].clone();
+                }
+                new
             }
             "fen" => {
                 let kind = ev["kind"].as_str().unwrap_or("fuzz").to_string();
